@@ -6,34 +6,64 @@
 (*     -> Bisection1D | Bisection2D | BisectionZD | RowWise...Search.      *)
 (* Every block must forward the same things; a slot dropped in one block   *)
 (* silently falls back to a default (e.g. flow_type -> BOREHOLE).          *)
+(*                                                                         *)
+(* set_design may be called again (another flow rate or flow type) and     *)
+(* setters may replace an input object in between: the design that         *)
+(* find_design runs is the snapshot taken by the LAST set_design call -    *)
+(* its flow rate, its flow type and the input objects that were in the     *)
+(* manager at that moment (C20: the flow specification the user gave last  *)
+(* is the one the search works with; C13: nothing of an earlier call       *)
+(* survives).                                                              *)
 (***************************************************************************)
 EXTENDS Integers, Sequences, FiniteSets, TLC, Json
 
 Geoms == {"NEARSQUARE", "RECTANGLE", "BIRECTANGLE", "BIZONEDRECTANGLE", "BIRECTANGLECONSTRAINED", "ROWWISE"}
 Flows == {"BOREHOLE", "SYSTEM"}
+Rates == {1, 2}
 \* the things the user supplied (identities) that must reach the search unchanged
-Slots == {"flow_rate", "flow_type", "borehole", "pipe_type", "fluid", "pipe", "grout", "soil", "sim_params", "loads", "geometry"}
+ObjSlots == {"borehole", "pipe_type", "fluid", "pipe", "grout", "soil", "sim_params", "loads", "geometry"}
+Slots == ObjSlots \cup {"flow_rate", "flow_type"}
+Replaceable == {"soil", "borehole"}       \* setters called again between / after set_design calls (bounded alphabet)
 
 SearchClass(g) == CASE g \in {"NEARSQUARE", "RECTANGLE"} -> "Bisection1D"
                     [] g = "BIRECTANGLE" -> "Bisection2D"
                     [] g \in {"BIZONEDRECTANGLE", "BIRECTANGLECONSTRAINED"} -> "BisectionZD"
                     [] g = "ROWWISE" -> "RowWiseModifiedBisectionSearch"
 
-VARIABLES geom, flow, stage, design, search
-vars == <<geom, flow, stage, design, search>>
+VARIABLES geom, stage, ver, design, search, hist, nset
+vars == <<geom, stage, ver, design, search, hist, nset>>
 
-User == [s \in Slots |-> IF s = "flow_type" THEN flow ELSE <<"user", s>>]
+\* what the manager holds right now: object identities <<slot, version>>
+Held(f, r) == [s \in Slots |-> IF s = "flow_type" THEN f ELSE IF s = "flow_rate" THEN r ELSE <<s, ver[s]>>]
 
-Init == geom \in Geoms /\ flow \in Flows /\ stage = "set" /\ design = <<>> /\ search = <<>>
-SetDesign == stage = "set" /\ design' = User /\ stage' = "designed" /\ UNCHANGED <<geom, flow, search>>
+Init == /\ geom \in Geoms /\ stage = "set" /\ ver = [s \in ObjSlots |-> 1]
+        /\ design = <<>> /\ search = <<>> /\ hist = <<>> /\ nset = 0
+
+SetDesign(f, r) == /\ stage \in {"set", "designed"} /\ nset < 2
+                   /\ design' = Held(f, r) /\ stage' = "designed" /\ nset' = nset + 1
+                   /\ hist' = Append(hist, <<"set_design", f, r>>)
+                   /\ UNCHANGED <<geom, ver, search>>
+\* a setter is called again: the manager holds a NEW object; an existing design keeps the one it captured
+ReSet(s) == /\ stage \in {"set", "designed"} /\ ver[s] = 1 /\ Len(hist) < 4
+            /\ ver' = [ver EXCEPT ![s] = 2]
+            /\ hist' = Append(hist, <<"reset", s>>)
+            /\ UNCHANGED <<geom, stage, design, search, nset>>
 FindDesign == /\ stage = "designed"
               /\ search' = [cls |-> SearchClass(geom), args |-> [s \in Slots \ {"geometry"} |-> design[s]], method |-> "HYBRID"]
-              /\ stage' = "searching" /\ UNCHANGED <<geom, flow, design>>
-Next == SetDesign \/ FindDesign
+              /\ stage' = "searching" /\ hist' = Append(hist, <<"find_design">>)
+              /\ UNCHANGED <<geom, ver, design, nset>>
+Next == (\E f \in Flows, r \in Rates : SetDesign(f, r)) \/ (\E s \in Replaceable : ReSet(s)) \/ FindDesign
 Spec == Init /\ [][Next]_vars
 
-\* C20 (and C13/C17): what the search works with is what the user gave, for every geometry and both flow types
-Forwarded == stage = "searching" => \A s \in Slots \ {"geometry"} : search.args[s] = User[s]
-DesignHolds == stage # "set" => \A s \in Slots : design[s] = User[s]
-Emit == stage = "searching" => PrintT(ToJson([geom |-> geom, flow |-> flow, cls |-> search.cls]))
+\* the last set_design call in the history and the versions held at that moment
+LastSet == CHOOSE i \in 1..Len(hist) : hist[i][1] = "set_design" /\ \A j \in (i + 1)..Len(hist) : hist[j][1] # "set_design"
+VerAt(i, s) == IF \E j \in 1..(i - 1) : hist[j] = <<"reset", s>> THEN 2 ELSE 1
+Expected == [s \in Slots |-> IF s = "flow_type" THEN hist[LastSet][2] ELSE IF s = "flow_rate" THEN hist[LastSet][3] ELSE <<s, VerAt(LastSet, s)>>]
+
+\* C20 (and C13/C17): what the search works with is what the user gave in the LAST set_design call
+Forwarded == stage = "searching" => \A s \in Slots \ {"geometry"} : search.args[s] = Expected[s]
+DesignHolds == stage # "set" => design = Expected
+Emit == stage = "searching" => PrintT(ToJson([geom |-> geom, hist |-> hist, cls |-> search.cls,
+                                              flow |-> Expected["flow_type"], rate |-> Expected["flow_rate"],
+                                              vers |-> [s \in Replaceable |-> Expected[s][2]]]))
 =============================================================================
